@@ -43,6 +43,13 @@ here: such runs are executed but neither judged nor compared with the model (cou
 histogram); the executor never switches threads inside a controller write, and the structured
 streams place controller writes only where the worker is between updates and the queue is drained.
 The model states the same thing as the hypothesis `Serial` of C20_event.
+
+Two dimensions of the world the update runs against (round 6): the peer-address family of the connections
+(`peer`: what an IPv4 / an IPv6 listener reports as peer name — 2-tuple or 4-tuple; nothing in the model
+depends on it, so the same model line must fit), and loop operations that span several reads (`head` /
+`body`: a PUT whose bytes arrive in two reads, cut after the blank line, inside the header block or inside the
+body, with hand-off draining, timer expiries, flushes and reads in between; the model performs the whole
+operation where the request completes and nothing at the first read).
 """
 from __future__ import annotations
 
@@ -95,6 +102,13 @@ TRUSTED = [
     "the value / cache slots are wrapped in a data descriptor that sees every get / set on the characteristic under "
     "test however it is spelled; over the warm-up programs (every operation of the alphabet) the logged accesses "
     "must be exactly those that happened, else the tie counts as not established",
+    "a request whose bytes arrive in several reads is, for the model, one operation at the read that completes it "
+    "(h11 buffers the rest; HAPServerProtocol.request / request_body are connection-private); the peer-address "
+    "family (2-tuple / 4-tuple peer names) is invisible to the model — both are tied by running such cases "
+    "through the same model lines",
+    "whether this code's flush scheduling is visible at the loop boundary is established once per process (subscribe, "
+    "one worker update, drain: a timer must have been handed to call_later / call_at); only if it is not, a missed "
+    "event without any timer is treated as a tie problem instead of a verdict",
     "Characteristic.override_properties called from the worker thread is exercised and judged by the oracle (value "
     "sentence, serial order of the value reads) but is not in the Lean model; that the representation served "
     "afterwards may keep superseded minValue/maxValue/minStep is counted as an observation, not judged (C20 speaks "
@@ -162,6 +176,17 @@ def fresh_object(kind: str, v: Any) -> Any:
     return v
 
 
+def peer_name(family: str, c: int):
+    """What transport.get_extra_info("peername") reports for connection c: asyncio passes on the socket's
+    getpeername(), i.e. (host, port) on an IPv4 listener and (host, port, flowinfo, scope_id) on an IPv6 one
+    (AccessoryDriver(listen_address="::") — legal configuration; link-local peers carry a scope id)."""
+    if family == "v6":
+        return ("fe80::%x" % (0x100 + c), 50000 + c, 0, 2)
+    if family == "v6-global":
+        return ("2001:db8::%x" % (0x100 + c), 50000 + c, 0, 0)
+    return ("10.0.0.%d" % c, 50000 + c)
+
+
 class FakeTransport:
     def __init__(self, peer, foreign=None):
         self.peer = peer
@@ -214,7 +239,7 @@ def _pyhap_dir() -> str:
 class Env:
     """The real objects: a driver with a manually stepped loop, one accessory, fake connections."""
 
-    def __init__(self, kind: str, init: Any, conns: List[int]):
+    def __init__(self, kind: str, init: Any, conns: List[int], peer: str = "v4"):
         from pyhap.accessory import Accessory
         from pyhap.accessory_driver import AccessoryDriver
         from pyhap.hap_protocol import HAPServerProtocol
@@ -250,7 +275,7 @@ class Env:
         self.conns: Dict[int, Tuple[Any, FakeTransport]] = {}
         for c in conns:
             proto = HAPServerProtocol(self.loop, self.driver.http_server.connections, self.driver)
-            tr = FakeTransport(("10.0.0.%d" % c, 50000 + c), self.foreign_calls)
+            tr = FakeTransport(peer_name(peer, c), self.foreign_calls)
             proto.connection_made(tr)
             proto.handler.is_encrypted = True  # a verified session (the cipher itself is C04/C05's subject)
             self.conns[c] = (proto, tr)
@@ -589,6 +614,7 @@ class Exec:
         self.w_in_update = False
         self.overlap = False           # a controller write overlapped a worker update / undrained hand-off
         self.update_preempted = False  # the worker handed the token over in the middle of an update
+        self.partial: Dict[int, Tuple[str, Any, Dict[str, Any], bytes]] = {}  # requests received in part
         self.spy: List[str] = []       # every value / cache access that really happened (completeness audit)
         self.anomalies: List[str] = []
         self.timer_problem: Optional[str] = None
@@ -811,7 +837,25 @@ class Exec:
         elif name == "unsub":
             self.put(op[1], {"ev": False})
         elif name == "lost":
+            self.partial.pop(op[1], None)
             env.conns[op[1]][0].connection_lost(None)
+        elif name == "head":
+            self.put_head(op[1], op[2], op[3], op[4])
+        elif name == "body":
+            part = self.partial.pop(op[1], None)
+            if part is not None:
+                what, arg, fields, rest = part
+                if what == "write":
+                    if self.w_in_update or env.loop._ready:
+                        self.overlap = True
+                    self.in_write = True
+                    try:
+                        self.put(op[1], fields, rest)
+                    finally:
+                        self.sync("L")
+                        self.in_write = False
+                else:
+                    self.put(op[1], fields, rest)
         elif name == "write":
             if self.w_in_update or env.loop._ready:
                 self.overlap = True
@@ -859,20 +903,41 @@ class Exec:
             raise ValueError(f"unknown op {op}")
         self.sync("L")
 
-    def put(self, c: int, fields: Dict[str, Any]):
-        """A real PUT /characteristics on connection c (plaintext framing, verified session)."""
+    def request_bytes(self, fields: Dict[str, Any]) -> Tuple[bytes, bytes]:
         env = self.env
-        proto, tr = env.conns[c]
         body = json.dumps({"characteristics": [dict({"aid": env.aid, "iid": env.iid}, **fields)]}).encode()
-        req = (
+        head = (
             b"PUT /characteristics HTTP/1.1\r\nHost: hap\r\nContent-Type: application/hap+json\r\n"
             b"Content-Length: %d\r\n\r\n" % len(body)
-        ) + body
+        )
+        return head, body
+
+    def put(self, c: int, fields: Dict[str, Any], rest: Optional[bytes] = None):
+        """A real PUT /characteristics on connection c (plaintext framing, verified session); `rest`: the
+        request began in an earlier read (see `head`), these are its remaining bytes."""
+        proto, tr = self.env.conns[c]
+        if rest is None:
+            head, body = self.request_bytes(fields)
+            rest = head + body
         n = len(tr.writes)
-        proto.data_received(req)
-        resp = b"".join(tr.writes[n:])
-        if not resp.startswith(b"HTTP/1.1 204"):
-            self.anomalies.append(f"PUT {fields} on connection {c} answered {resp[:40]!r}")
+        proto.data_received(rest)
+        # (an EVENT may legitimately precede the answer in the transport log)
+        resp = [w for w in tr.writes[n:] if w.startswith(b"HTTP/1.1 ")]
+        if not resp or not resp[0].startswith(b"HTTP/1.1 204"):
+            self.anomalies.append(f"PUT {fields} on connection {c} answered {b''.join(tr.writes[n:])[:40]!r}")
+
+    def put_head(self, c: int, what: str, arg: Any, cut: str):
+        """The first read of a request that reaches the accessory in two reads (a request may be split at any
+        byte: separate frames / segments; unavoidable for bodies over 1024 bytes).  `cut`: after the blank line
+        ("head"), inside the header block ("mid-head") or inside the body ("mid-body")."""
+        fields = {"sub": {"ev": True}, "unsub": {"ev": False}}.get(what)
+        if fields is None:
+            fields = {"value": arg}
+        head, body = self.request_bytes(fields)
+        k = {"head": len(head), "mid-head": len(head) // 2, "mid-body": len(head) + max(1, len(body) // 2)}[cut]
+        data = head + body
+        self.partial[c] = (what, arg, fields, data[k:])
+        self.env.conns[c][0].data_received(data[:k])
 
     def timed_op(self, i: int, op: List[Any]):
         ev = {"t": op[0], "i": i}
@@ -880,6 +945,14 @@ class Exec:
             ev["c"] = op[1]
         if op[0] == "write":
             ev["value"] = op[2]
+        if op[0] == "body":
+            # the request is complete (and gets answered) now: for the oracle this IS the subscription /
+            # unsubscription / controller write
+            part = self.partial.get(op[1])
+            if part is not None:
+                ev["t"] = part[0]
+                if part[0] == "write":
+                    ev["value"] = part[1]
         self.timeline.append(dict(ev, phase="start"))
         n_res = len(self.results)
         try:
@@ -981,6 +1054,7 @@ def _log_missing(ex: "Exec", case: Dict[str, Any], epi, valid) -> List[str]:
 
 
 _WARM = False
+_TIMERS_SEEN = False  # the warm-up programs showed coalescing timers at the loop boundary (call_later / call_at)
 _TIE_PROBLEM: Optional[str] = None  # set once per process when the access log cannot be established at all
 _WARM_CASES = [
     {"char": k, "init": KINDS[k]["good"][0], "conns": [1, 2],
@@ -997,7 +1071,7 @@ _WARM_CASES += [dict(_WARM_CASES[0], wkind="own-loop"), dict(_WARM_CASES[1], wki
 def warm_up():
     """Discover the attribute names, make sure every code object involved is instrumented for opcode
     events in this process, and find out whether the access log can be established at all."""
-    global _WARM, _TIE_PROBLEM
+    global _WARM, _TIE_PROBLEM, _TIMERS_SEEN
     if _WARM:
         return
     _WARM = True
@@ -1008,6 +1082,9 @@ def warm_up():
     for c in _WARM_CASES:
         for _ in range(2):
             _run_case_once(c)
+    # is this code's flush scheduling visible at the loop boundary?  (subscribe; one whole worker update; drain)
+    plain = base_case("int", KINDS["int"]["good"][3], [1], [["sub", 1]], [["drain"]], [KINDS["int"]["good"][4]], start="W")
+    _TIMERS_SEEN = bool(_run_case_once(plain).get("had_timers"))
     probes = [_run_case_once(c) for c in (_WARM_CASES[0], _WARM_CASES[0], _WARM_CASES[1])]
     if probes[0]["missing"] and probes[0]["impl"]["trace"] == probes[1]["impl"]["trace"] and probes[2]["missing"]:
         _TIE_PROBLEM = "; ".join(probes[0]["missing"])
@@ -1042,7 +1119,7 @@ def run_case(case: Dict[str, Any]) -> Dict[str, Any]:
 def _run_case_once(case: Dict[str, Any]) -> Dict[str, Any]:
     kind = case["char"]
     conns = case["conns"]
-    env = Env(kind, case["init"], conns)
+    env = Env(kind, case["init"], conns, case.get("peer", "v4"))
     try:
         ex = Exec(env, case.get("switchL", []), case.get("switchW", []), case.get("start", "L"),
                   case.get("gran", "line"), case.get("wkind", "plain"))
@@ -1128,8 +1205,11 @@ def _run_case_once(case: Dict[str, Any]) -> Dict[str, Any]:
     # A flush mechanism the harness cannot observe must never become an oracle verdict about events.
     timer_problem = ex.timer_problem
     missed = "C20:subscriber-missed-final-value"
-    if timer_problem is None and any(v[0] == missed for v in verdicts) and not any(env.timers.values()) \
-            and not env.unowned_timers:
+    had_timers = any(env.timers.values()) or bool(env.unowned_timers)
+    if timer_problem is None and any(v[0] == missed for v in verdicts) and not had_timers and not _TIMERS_SEEN:
+        # (only when this code's flush scheduling is invisible to the harness altogether — established once per
+        # process on the warm-up programs.  If timers are seen there, a run without any timer means that nothing
+        # was ever queued for the connection, e.g. the event was dropped on its way: that is a verdict.)
         timer_problem = (
             "events were queued but no timer was ever handed to the loop through call_later / call_at in this "
             "run: the harness cannot observe how this code schedules its flush"
@@ -1149,7 +1229,20 @@ def _run_case_once(case: Dict[str, Any]) -> Dict[str, Any]:
             wups.append([0, 0, False])
     lid = iter(ex.l_write_ids)
     lops = []
+    heads: Dict[int, Tuple[str, Any]] = {}
     for op in case["prologue"] + case["loop"] + epi:
+        if op[0] == "head":
+            # the first read of a split request changes nothing the model speaks about (the parser buffers
+            # it); the model performs the whole operation where the request completes
+            heads[op[1]] = (op[2], op[3])
+            continue
+        if op[0] == "body":
+            part = heads.pop(op[1], None)
+            if part is None:
+                continue
+            op = [part[0], op[1]] + ([part[1]] if part[0] == "write" else [])
+        if op[0] == "lost":
+            heads.pop(op[1], None)
         if op[0] == "write":
             lops.append(["write", op[1], next(lid, 0), payload(kind, op[2])])
         else:
@@ -1176,6 +1269,7 @@ def _run_case_once(case: Dict[str, Any]) -> Dict[str, Any]:
         "line": line, "impl": impl_obs, "verdicts": verdicts, "interleaved": interleaved,
         "yields": dict(ex.yields), "yield_info": ex.yield_info, "sched_part": sched_part, "scale": scale,
         "n_ep": n_ep, "overlap": ex.overlap, "missing": missing, "timer_problem": timer_problem,
+        "had_timers": had_timers,
         "atomic": not ex.update_preempted, "spy": ex.spy, "oracle_only": has_override, "stale_meta": stale_meta,
     }
 
@@ -1243,6 +1337,27 @@ def phased_scenarios(kind: str) -> List[Tuple[str, Dict[str, Any]]]:
     return [(n, base_case(kind, a, [1, 2], both, prog, [u1, u2], start="W")) for n, prog in P.items()]
 
 
+def split_scenarios(kind: str) -> List[Tuple[str, Dict[str, Any]]]:
+    """Connections 1 and 2 are subscribed.  A request of connection 1 or 2 (repeated subscription, controller
+    write, unsubscription of the other connection) arrives in two reads; in between the loop runs the
+    hand-offs and lets timers expire.  One worker update, at every point."""
+    g = KINDS[kind]["good"]
+    a, u1, x = g[-2], g[-1], g[2 % len(g)]
+    both = [["sub", 1], ["sub", 2]]
+    S = []
+    for cut in ("head", "mid-body", "mid-head"):
+        S.append((f"resub-{cut}", [["head", 1, "sub", None, cut], ["drain"], ["fire", 1], ["body", 1], ["fire", 1],
+                                   ["fire", 2], ["toHAP"]]))
+    S.append(("resub-flush", [["head", 1, "sub", None, "head"], ["drain"], ["flush", 1], ["body", 1], ["fire", 1]]))
+    S.append(("unsub-other", [["head", 2, "unsub", None, "head"], ["drain"], ["fire", 1], ["fire", 2], ["body", 2],
+                              ["fire", 1]]))
+    S.append(("write-self", [["head", 1, "write", x, "mid-body"], ["drain"], ["fire", 1], ["body", 1], ["fire", 1],
+                             ["fire", 2], ["getValue"]]))
+    S.append(("two-open", [["head", 1, "sub", None, "head"], ["head", 2, "sub", None, "mid-body"], ["drain"],
+                           ["fire", 2], ["body", 2], ["fire", 1], ["body", 1], ["fire", 1], ["fire", 2]]))
+    return [(n, base_case(kind, a, [1, 2], both, prog, [u1])) for n, prog in S]
+
+
 def solo_counts(case: Dict[str, Any]) -> Tuple[int, int, Dict[str, Any]]:
     """Yield points of each thread when the loop program runs first, then the worker."""
     c = dict(case, switchL=[], switchW=[], start="L")
@@ -1291,6 +1406,30 @@ def gen_cases(ctx: Ctx) -> List[Tuple[str, Dict[str, Any]]]:
                 cases.append((f"phased/{name}", dict(sc2, switchL=[k])))
             # ... and with the first update only
             cases.append((f"phased1/{name}", dict(sc, worker=sc["worker"][:1])))
+    # (6) peer-address family: the same sweeps with connections whose peer name is what an IPv6 listener
+    #     reports, (host, port, flowinfo, scope_id) — AccessoryDriver(listen_address="::") is legal configuration
+    for fam in ("v6", "v6-global"):
+        for name, sc in scenarios("int"):
+            if name not in ("toHAP-cold", "sub-first", "sub-second", "unsub-other", "lost-other", "drain-flush"):
+                continue
+            if fam == "v6-global" and name not in ("toHAP-cold", "sub-second"):
+                continue
+            sc = dict(sc, peer=fam)
+            nl, nw, solo = solo_counts(sc)
+            pts = sweep_points(solo["yield_info"]["L"])
+            for k in (pts[::2] if ctx.quick else pts):
+                cases.append((f"single-{fam}/{name}", dict(sc, switchL=[k])))
+        for name, sc in phased_scenarios("int"):
+            if name in ("write-other", "unsub-resub", "fire-twice") and fam == "v6":
+                cases.append((f"phased1-{fam}/{name}", dict(sc, worker=sc["worker"][:1], peer=fam)))
+    # (S) loop operations that span SEVERAL reads: a PUT whose head and body arrive in separate reads (split
+    #     after the blank line / inside the header block / inside the body); between the two reads the loop
+    #     drains hand-offs and the connection's timer expires; the worker's update lands at every point
+    for kind in (["int"] if ctx.quick else kinds_sweep):
+        for name, sc in split_scenarios(kind):
+            nl, nw, solo = solo_counts(sc)
+            for k in sweep_points(solo["yield_info"]["L"]):
+                cases.append((f"split/{name}", dict(sc, switchL=[k])))
     # (V) the worker calls override_properties (a narrower range: value kept / value clamped) instead of
     #     set_value, at every point of a read — oracle only (value sentence + serial order of the reads)
     for init in (20, 80):
@@ -1402,10 +1541,23 @@ def random_case(rng) -> Dict[str, Any]:
             ops.append(["lost", rng.choice(conns)])
         else:
             ops += [["drain"], ["write", rng.choice(conns), rng.choice(spec["good"])]]
+    split_ops: List[List[Any]] = []
+    for op in ops:  # some requests reach the accessory in two reads, with other loop work in between
+        if op[0] in ("sub", "unsub", "write") and rng.random() < 0.25:
+            split_ops.append(["head", op[1], op[0], op[2] if op[0] == "write" else None,
+                              rng.choice(["head", "mid-body", "mid-head"])])
+            for _ in range(rng.choice([0, 1, 2])):
+                split_ops.append(rng.choice([["drain"], ["fire", op[1]], ["flush", op[1]], ["toHAP"]]))
+            if op[0] == "write":
+                split_ops.append(["drain"])
+            split_ops.append(["body", op[1]])
+        else:
+            split_ops.append(op)
+    ops = split_ops
     gone: set = set()
     kept: List[List[Any]] = []
     for op in ops:  # a connection that went away makes no further requests
-        if len(op) > 1 and op[1] in gone and op[0] in ("sub", "unsub", "write", "flush", "lost"):
+        if len(op) > 1 and op[1] in gone and op[0] in ("sub", "unsub", "write", "flush", "lost", "head", "body"):
             continue
         if op[0] == "lost":
             gone.add(op[1])
@@ -1428,6 +1580,7 @@ def random_case(rng) -> Dict[str, Any]:
     return base_case(
         kind, init, conns, prologue, ops, worker,
         start=rng.choice(["L", "W"]), gran=gran, wkind=rng.choice(["plain", "plain", "plain", "own-loop"]),
+        peer=rng.choice(["v4", "v4", "v6", "v6-global"]),
         switchL=[i for i in range(horizon) if rng.random() < p],
         switchW=[i for i in range(horizon // 2) if rng.random() < min(0.5, 2 * p)],
     )
@@ -1584,7 +1737,9 @@ def run(ctx: Ctx):
         "unsubscribe+resubscribe, repeated subscribe, timer expiry on a full or emptied queue, direct flush; a "
         "second update lands at every point of that program; phased1/: no second update), the single / reverse "
         "sweeps with a worker whose thread runs an asyncio loop of its own (ownloop/, ownloop-reverse/), a worker "
-        "that calls override_properties (override/, override-then-set/: oracle only), random "
+        "that calls override_properties (override/, override-then-set/: oracle only), the single / phased1 sweeps "
+        "on connections with IPv6 peer names (single-v6/, single-v6-global/, phased1-v6/), requests that arrive in "
+        "two reads with loop work in between (split/), random "
         "programs under "
         "random schedules (random). A case is non-trivial "
         "if the shared-variable accesses of the two threads actually interleave (neither thread's accesses all "
@@ -1641,6 +1796,8 @@ def replay(ctx: Ctx, r):
 
 def _print_run(r, res):
     print("char", r["char"], "init", r["init"], "prologue", r["prologue"], "loop", r["loop"], "worker", r["worker"])
+    if r.get("peer", "v4") != "v4":
+        print("peer names as reported by an IPv6 listener:", [peer_name(r["peer"], c) for c in r.get("conns", [])])
     print("schedule: start", r.get("start", "L"), "switchL", r.get("switchL"), "switchW", r.get("switchW"),
           "granularity", r.get("gran", "line"), "| worker thread:",
           "runs its own asyncio loop" if r.get("wkind") == "own-loop" else "plain")
